@@ -17,13 +17,17 @@ RULE = (
     "are empty; R4 no commit is reachable after a fire_components call (outputs never become visible before the same edge's FF "
     "update); R5 the events staged and the events fired are the same set (same argument shapes, same loops). "
     "R6 stage_components and fire_components both map the event through component_event and test listens_to on the mapped event; "
-    "fire_components calls fire, then apply_outputs, and sets comb_dirty when apply_outputs reported a write. "
-    "R7 payload/mask pairing: in RuntimeComponent::stage_inputs and ::apply_outputs every raw copy (ptr::copy_nonoverlapping, "
+    "fire_components calls fire, then apply_outputs (directly or through a RuntimeComponent helper), and sets comb_dirty when a write was "
+    "reported. R8 only fire_components and init_components apply component outputs: outputs become visible together with the flip-flop "
+    "updates, never in zero time. "
+    "R9 in the guest SDK (veryl_component::ctx) every direct store of a port's payload word also stores its mask word and its dirty flag. "
+    "R10 InputSource::classify chooses a Direct* source (raw copy of the whole variable) only where every optional modifier of "
+    "Expression::Variable (select, dynamic_select, ...) is None. R7 payload/mask pairing: in RuntimeComponent::stage_inputs and ::apply_outputs every raw copy (ptr::copy_nonoverlapping, "
     "read_payload/write_payload, stores through dst_* pointers) moves payload-side storage to payload-side storage and "
     "mask-side storage (base + native_bytes, *_mask) to mask-side storage, and every mask-side copy happens only under use_4state."
 )
 
-CRATES = ["veryl_simulator"]
+CRATES = ["veryl_simulator", "veryl_component", "veryl_component_sys"]
 S = "veryl_simulator::simulator::Simulator::"
 COMMIT = S + "commit_event_log"
 STAGE = S + "stage_components"
@@ -178,6 +182,25 @@ def run(world, tier, info, only=None):
         gs = sorted({_components_empty(sem.facts(m.at_entry(b)), False) for b in sb})
         gf = sorted({_components_empty(sem.facts(m.at_entry(b)), False) for b in fb})
         ck.ob("R5", "same-guard:%s" % short, gs == gf, site(s), "stage and fire sit under the same components-exist guard (%s / %s)" % (gs, gf))
+    # methods of RuntimeComponent that apply outputs (apply_outputs itself or a helper that always ends up calling it)
+    AO = {RC + "apply_outputs"}
+    changed = True
+    while changed:
+        changed = False
+        for q, sq in w.fns.items():
+            if q.startswith(RC) and q not in AO and not sq.get("alias_of") and any(c["c"] in AO for c in sq["calls"]):
+                AO.add(q)
+                changed = True
+    AO_RX = "^(" + "|".join(re.escape(x) for x in sorted(AO)) + ")$"
+    # R8 outputs become visible only at an edge (fire_components) or at initialisation
+    ALLOWED_APPLIERS = {FIRE: "the edge protocol", S + "init_components": "initial output values, before the first settle"}
+    appliers = sorted(q for q, sq in w.fns.items() if not q.startswith(RC) and not sq.get("alias_of") and "::tests::" not in q and any(c["c"] in AO for c in sq["calls"]))
+    for q in appliers:
+        ck.ob("R8", "outputs-applied-only-at-an-edge:%s" % q.split("::")[-1], q in ALLOWED_APPLIERS, site(w.fns[q]),
+              "%s applies component outputs: %s" % (q.split("::")[-1], ALLOWED_APPLIERS.get(q)) if q in ALLOWED_APPLIERS else
+              "%s writes component outputs into the design's storage outside the edge protocol: the outputs become visible in zero time instead of "
+              "together with the flip-flop updates of the component's next clock edge" % q)
+    ck.floor("R8", "functions applying component outputs", len(appliers), 2)
     # ---------------- R6 ---------------------------------------------------------------------------------
     for p in (STAGE, FIRE):
         s = w.fns[p]
@@ -195,7 +218,7 @@ def run(world, tier, info, only=None):
         ck.ob("R6", short + "/listens-to-mapped-event", okl, site(s), "listens_to is asked about the mapped event")
         m = MustFacts(f)
         sem = Sem(f, 12)
-        work = f.calls("^" + re.escape(RC) + "(stage_inputs|fire|apply_outputs)$")
+        work = f.calls("^" + re.escape(RC) + "(stage_inputs|fire)$") + f.calls(AO_RX)
         ck.floor("R6", short + " component calls", len(work), 1 if p == STAGE else 2)
         for b, t in work:
             facts = sem.facts(m.at_entry(b))
@@ -210,7 +233,7 @@ def run(world, tier, info, only=None):
     s = w.fns[FIRE]
     f = Fn(w.mir(FIRE))
     m = MustFacts(f)
-    for b, t in f.calls("^" + re.escape(RC + "apply_outputs") + "$"):
+    for b, t in f.calls(AO_RX):
         F = m.at_entry(b)
         ck.ob("R6", "fire_components/fire-before-apply", F is not None and ("called", RC + "fire") in F, site(s, t["l"]), "the hook fires before its outputs are applied")
         ev = [tt for bb, tt in f.calls("^" + re.escape(RC + "fire") + "$")]
@@ -229,7 +252,7 @@ def run(world, tier, info, only=None):
                 if a[0] == "val" and a[2] is True:
                     names.add(f.name(a[1]) or "")
                     pv = f.prov(["c", [a[1], []]], depth=10)
-                    if any(x[0] == "call" and x[1] == RC + "apply_outputs" for x in pv):
+                    if any(x[0] == "call" and x[1] in AO for x in pv):
                         okd = True
     ck.ob("R6", "fire_components/outputs-mark-comb-dirty", okd, site(s), "comb_dirty is set when apply_outputs reported a write")
 
@@ -291,5 +314,79 @@ def run(world, tier, info, only=None):
                 ok = under_4state(bi, si)
                 ck.ob("R7", "%s/copy@%d/mask-only-4state" % (short, n), ok, site(s, line), "the mask copy happens only under use_4state")
         ck.floor("R7", "raw copies in " + short, n, floor)
+    # ---------------- R10 direct staging only for plain whole-variable connections -------------------------------
+    CL = "veryl_simulator::component::runtime::InputSource::classify"
+    EXPR = "veryl_simulator::ir::expression::Expression"
+    if CL in w.fns and EXPR in w.adts:
+        s10 = w.fns[CL]
+        g = Fn(w.mir(CL))
+        mg = MustFacts(g)
+        var = [v for v in w.adts[EXPR]["variants"] if v["name"] == "Variable"]
+        optional = [fl["name"] for fl in var[0]["fields"] if fl["ty"].startswith("core::option::Option<")] if var else []
+        ck.floor("R10", "optional modifiers of Expression::Variable", len(optional), 2)
+        n10 = 0
+        for bi, b in enumerate(g.blocks):
+            if b.get("cu"):
+                continue
+            for si, st in enumerate(b["s"]):
+                if st[0] == "=" and st[2][0] == "agg" and isinstance(st[2][1], dict) and (st[2][1].get("adt") or "").endswith("runtime::InputSource") \
+                        and (st[2][1].get("variant") or "").startswith("Direct"):
+                    n10 += 1
+                    S_ = mg.state_at(bi, si)
+                    F = S_[0] if S_ else ()
+                    for fld in optional:
+                        ok = any(a[0] == "variant" and a[2] == "None" and any(q[0] == "f" and q[1] == fld for q in a[1][1]) for a in F)
+                        ck.ob("R10", "direct-staging-requires-plain-variable:%s/%s" % (st[2][1]["variant"], fld), ok, site(s10, st[3]),
+                              "InputSource::%s is chosen only where Expression::Variable.%s is None" % (st[2][1]["variant"], fld) if ok else
+                              "InputSource::%s (a raw copy of the whole variable that bypasses Expression::eval) is chosen although the connection's %s "
+                              "may be set: the component reads the wrong bits / element" % (st[2][1]["variant"], fld))
+        ck.floor("R10", "direct InputSource constructions", n10, 2)
+    else:
+        ck.missing("R10", CL)
+    # ---------------- R9 guest-side direct port writes keep payload, mask and dirty flag together --------------------
+    n9 = 0
+    for p9, s9 in sorted(w.fns.items()):
+        if not p9.startswith("veryl_component::ctx::") or s9.get("alias_of") or "::tests::" in p9:
+            continue
+        raw = w.mir_raw(p9)
+        if b"words_ptr" not in raw:
+            continue
+        g = Fn(w.mir(p9))
+
+        def ptr_writes(field):
+            out = []
+            for bi, b in enumerate(g.blocks):
+                if b.get("cu"):
+                    continue
+                for st in b["s"]:
+                    if st[0] == "=" and "*" in st[1][1]:
+                        r, pth = flow.access_path(g, ["c", [st[1][0], []]], extra_transparent=re.compile(r"(const_ptr|mut_ptr)::<impl \*(const|mut) T>::(add|offset)$"))
+                        if field in pth:
+                            out.append(bi)
+                t = b["t"]
+                if t["t"] == "call" and re.search(r"core::ptr::(copy_nonoverlapping|write_bytes|write)$|core::intrinsics::(copy_nonoverlapping|write_bytes)$", t.get("callee") or ""):
+                    idx = 1 if "copy_nonoverlapping" in t["callee"] else 0
+                    r, pth = flow.access_path(g, t["args"][idx], extra_transparent=re.compile(r"(const_ptr|mut_ptr)::<impl \*(const|mut) T>::(add|offset)$"))
+                    if field in pth:
+                        out.append(bi)
+            return out
+        ww = ptr_writes("words_ptr")
+        if not ww:
+            continue
+        mw = ptr_writes("mask_ptr")
+        dw = ptr_writes("dirty_ptr")
+        for k, wb in enumerate(sorted(set(ww))):
+            n9 += 1
+            # a payload store is followed (or preceded in the same straight-line region) by a mask store and a dirty store on every path
+            def covered(blocks):
+                return wb in blocks or any(g.reaches(x, wb) and not flow.escapes(g, x, [wb]) for x in blocks) or not flow.escapes(g, wb, blocks)
+            okm = bool(mw) and covered(mw)
+            okd = bool(dw) and covered(dw)
+            ck.ob("R9", "direct-write-sets-mask:%s@%d" % (p9.split("::")[-1], k + 1), okm, site(s9),
+                  "a direct store of the payload word also stores the X/Z mask word" if okm else
+                  "the payload word is stored through the port's direct pointer without storing the mask word: a port that was driven X/Z keeps its stale "
+                  "mask, and the native transport diverges from the wasm one (which always writes a zero mask)")
+            ck.ob("R9", "direct-write-sets-dirty:%s@%d" % (p9.split("::")[-1], k + 1), okd, site(s9), "a direct store of the payload word marks the port dirty")
+    ck.floor("R9", "direct payload stores in veryl_component::ctx", n9, 2)
     ck.analysed = {"commit_callers": callers, "stage_callers": stage_callers, "fire_callers": fire_callers}
     return ck.finish(info)
